@@ -5,6 +5,7 @@ from .. import engine
 from ..rules import ranges as rg
 from ..rules import errignored
 from ..rules import minmax
+from ..rules import findend
 
 
 def tu_check(tu):
@@ -14,14 +15,16 @@ def tu_check(tu):
     unb = rg.c_unbounded_table(tu)
     cross = rg.c_cross_table(tu)
     ei = errignored.analyse_tu(tu)
-    bn["findings"] = bn["findings"] + ei["findings"]
+    fe = findend.c_check(tu)
+    bn["findings"] = bn["findings"] + ei["findings"] + fe["findings"]
+    bn["fe"] = fe["n"]
     bn["ei"] = ei["stats"]["error_result_sites"]
-    return dict(ei=bn["ei"], cross={repr(k): v for k, v in cross.items()}, unb={repr(k): v for k, v in unb.items()}, range={repr(k): v for k, v in t.items()}, seek=sa, findings=bn["findings"], bn=bn["n"])
+    return dict(fe=bn["fe"], ei=bn["ei"], cross={repr(k): v for k, v in cross.items()}, unb={repr(k): v for k, v in unb.items()}, range={repr(k): v for k, v in t.items()}, seek=sa, findings=bn["findings"], bn=bn["n"])
 
 
 def run(tier="quick", seed=0, use_cache=True):
     res = engine.Result("C02")
-    res.rules = ["RANGE-TABLE", "BOUND-NORM", "SEEK-ALGEBRA", "ITER-CONTINUE", "TREE-EXCLUDE", "UNBOUNDED-END", "RANGE-SHAPE", "ENDS-CROSS", "ERR-IGNORED", "MINMAX-TABLE"]
+    res.rules = ["RANGE-TABLE", "BOUND-NORM", "SEEK-ALGEBRA", "ITER-CONTINUE", "TREE-EXCLUDE", "UNBOUNDED-END", "RANGE-SHAPE", "ENDS-CROSS", "ERR-IGNORED", "MINMAX-TABLE", "FINDEND-TABLE"]
     res.exhaustive = True
     res.explanation = (
         "Leaf-level and cursor-level pieces of the range machinery, decided "
@@ -67,8 +70,15 @@ def run(tier="quick", seed=0, use_cache=True):
         "bound); the outcome - which key slot is returned, which child is "
         "asked, or ValueError - must equal the specification (a bound behind "
         "the last key of its leaf is answered by the next leaf's first key). "
-        "The descent of the tree-level endpoint search (BTree_findRangeEnd's "
-        "loop, _findbucket) and reachable tree shapes are not decided.")
+        "FINDEND-TABLE: C BTree_findRangeEnd, descent included, is walked by "
+        "an abstract interpreter over node roles for every valuation of (one "
+        "or two interior levels, child index 0 or not at each level, leaf "
+        "search fails / finds nothing on this side / finds the entry, low or "
+        "high end, leaf has a successor): status, bucket and offset handed "
+        "back must be the leaf's own answer, the first entry of the next leaf "
+        "(low end), or the last entry of the last leaf under the deepest left "
+        "sibling passed on the way down (high end). Correctness of the binary "
+        "searches themselves (C01) and reachable tree shapes are not decided.")
     res.assumptions = ["the search index I is the index of the key if found, else the insertion index (BUCKET_SEARCH / _search contract, part of C01)"]
     out = engine.map_tus("sa.props.C02", "tu_check", use_cache=use_cache)
     n = 0
@@ -171,6 +181,8 @@ def run(tier="quick", seed=0, use_cache=True):
     res.floor("translation units", len(out), 22)
     res.floor("results of error-reporting repository functions held in locals (OO)", out["OO"]["ei"], 25)
     res.count("ERR-IGNORED", sum(r["ei"] for r in out.values()))
+    res.count("FINDEND-TABLE", sum(r["fe"] for r in out.values()))
+    res.floor("valuations of the tree-level endpoint search (OO)", out["OO"]["fe"], 72)
     res.samples = [{"c_range_table_OO": out["OO"]["range"]}, {"seek_effects_OO": out["OO"]["seek"]},
                    {"python_iter_table": {repr(k): v for k, v in it.items()}},
                    {"python_minmax_tables": mm}]
